@@ -95,7 +95,7 @@ package archiver
 // exactly once (Close finalises the client's WARC files).
 
 //@ pred clientOK(c *warc.CustomHTTPClient) = c != nil && c.WaitGroup != nil
-//@ pred clientsAsStarted() = globalArchiver != nil && config.config != nil && (globalArchiver.Client == nil || clientOK(globalArchiver.Client)) && (globalArchiver.ClientWithProxy == nil || clientOK(globalArchiver.ClientWithProxy)) && (config.config.Proxy == "" ==> globalArchiver.Client != nil && globalArchiver.ClientWithProxy == nil) && (config.config.Proxy != "" ==> globalArchiver.ClientWithProxy != nil && globalArchiver.Client == nil)
+//@ pred clientsAsStarted() = globalArchiver != nil && config.config != nil && (globalArchiver.Client == nil || globalArchiver.Client != globalArchiver.ClientWithProxy) && (globalArchiver.Client == nil || clientOK(globalArchiver.Client)) && (globalArchiver.ClientWithProxy == nil || clientOK(globalArchiver.ClientWithProxy)) && (config.config.Proxy == "" ==> globalArchiver.Client != nil) && (config.config.Proxy != "" ==> globalArchiver.ClientWithProxy != nil)
 
 // cancel is the CancelFunc of the archiver's context (context.WithCancel in Start): it touches
 // nothing of the crawler's state.
@@ -108,6 +108,7 @@ package archiver
 //@   replay c03_archiverStop:safe:nil
 //@   checks nil
 //@   requires [as-started] globalArchiver != nil ==> (clientsAsStarted() && globalArchiver.cancel != nil) // what Start leaves behind: startWARCWriter's postcondition [as-started]; cancel comes from context.WithCancel
+//@   ensures [config-kept] config.config == old(config.config) && config.config.UseHQ == old(config.config.UseHQ) && config.config.UseSeencheck == old(config.config.UseSeencheck) // (for stopPipeline: the stop does not touch the configuration)
 //@   local closedDirect int = 0
 //@   local closedProxy int = 0
 //@   attr hooked Close
